@@ -87,12 +87,11 @@ theorem exists_max (f : Nat → Nat) (i : Nat) : ∀ (j : Nat), i < j →
 
 /-- A closed walk `f i → f (i+1) → … → f j = f i` of at most `g.length` steps contains a node
 that `isCut` marks: its largest. -/
-theorem cycle_cut (g : List (Nat × Nat)) (f : Nat → Nat) (i j : Nat) (hij : i < j)
+theorem cycle_cut_at (g : List (Nat × Nat)) (f : Nat → Nat) (i j : Nat) (hij : i < j)
     (hp : j - i ≤ g.length)
-    (hstep : ∀ k, i ≤ k → k < j → nxt g (f k) = some (f (k + 1))) (heq : f i = f j) :
-    ∃ k, i ≤ k ∧ k < j ∧ isCut g (f k) = true := by
-  obtain ⟨k0, h1, h2, hmax⟩ := exists_max f i j hij
-  refine ⟨k0, h1, h2, ?_⟩
+    (hstep : ∀ k, i ≤ k → k < j → nxt g (f k) = some (f (k + 1))) (heq : f i = f j)
+    (k0 : Nat) (h1 : i ≤ k0) (h2 : k0 < j) (hmax : ∀ k, i ≤ k → k < j → f k ≤ f k0) :
+    isCut g (f k0) = true := by
   -- walking inside the closed walk
   have walk : ∀ m k, i ≤ k → k + m ≤ j → it (nxt g) m (f k) = some (f (k + m)) := by
     intro m
@@ -140,6 +139,13 @@ theorem cycle_cut (g : List (Nat × Nat)) (f : Nat → Nat) (i j : Nat) (hij : i
   have hz' : z ∈ orbit g g.length (f k0) := (List.takeWhile_sublist _).subset hz
   obtain ⟨k', a, b, rfl⟩ := closed g.length k0 h1 h2 z hz'
   exact hmax k' a b
+
+theorem cycle_cut (g : List (Nat × Nat)) (f : Nat → Nat) (i j : Nat) (hij : i < j)
+    (hp : j - i ≤ g.length)
+    (hstep : ∀ k, i ≤ k → k < j → nxt g (f k) = some (f (k + 1))) (heq : f i = f j) :
+    ∃ k, i ≤ k ∧ k < j ∧ isCut g (f k) = true := by
+  obtain ⟨k0, h1, h2, hmax⟩ := exists_max f i j hij
+  exact ⟨k0, h1, h2, cycle_cut_at g f i j hij hp hstep heq k0 h1 h2 hmax⟩
 
 /-- Pigeonhole: `n > ks.length` values in `ks` contain a repetition. -/
 theorem pigeon (ks : List Nat) (f : Nat → Nat) (n : Nat) (hn : ks.length < n)
